@@ -383,6 +383,12 @@ def dispatch(rc):
             rc.fail(f, f.node, f"{q}: the file extension must select the format the same way in save and load", construct=f"{q} extension")
 
 
+
+@rule("C09.defuse", "anchored files: every parameter is read, no value is computed and dropped (generic def-use detectors, triaged hit list)", floor=2)
+def defuse(rc):
+    from . import shared as _sh
+    _sh.defuse_rule(rc, _sh.anchor_files("C09"))
+
 MUTANTS = [
     dict(kind="break", name="xmlbif-writer-c-order", file=XML, expect="C09.layout",
          old="for val in compat_fns.ravel_f(cpd.get_values()):", new="for val in cpd.get_values().ravel():"),
